@@ -20,7 +20,7 @@ import asyncio
 
 from . import wire
 from .world import (AsyncServiceBrowser, AsyncServiceInfo, RecordingListener, service_info)
-from zeroconf import DNSQuestionType
+from zeroconf import DNSQuestionType, IPVersion
 
 
 def build_msg(m):
@@ -103,7 +103,19 @@ class Driver:
         h = self._host(op)
         if not h.alive:
             return None
-        info = mk_info(op["svc"])
+        old = self.infos.get((h.name, op["svc"]["name"].lower()))
+        if op.get("mutate") and old is not None and (old.server or "").lower() == (op["svc"].get("server") or
+                                                                                   op["svc"]["name"]).lower():
+            # the application keeps its ServiceInfo object, changes it in place and calls update
+            fresh = mk_info(op["svc"])
+            info = old
+            info.port, info.weight, info.priority = fresh.port, fresh.weight, fresh.priority
+            info.server, info.server_key = fresh.server, fresh.server_key
+            info.text = fresh.text
+            info.host_ttl, info.other_ttl = fresh.host_ttl, fresh.other_ttl
+            info.addresses = fresh.addresses_by_version(IPVersion.All)
+        else:
+            info = mk_info(op["svc"])
         self.infos[(h.name, info.name.lower())] = info
         e = self.w.spawn(h, "update", lambda: h.azc.async_update_service(info), op["svc"]["name"])
         e["info"] = info
